@@ -1,2 +1,35 @@
-/- C04 — property theorems (being extended); the writer model these will be about: -/
-import E57.Model.Writer
+/-
+C04 — all metadata survives write → read unchanged.
+
+Three obligations connect the writer's XML text to what the reader reports:
+
+ A. (proved, `E57/Proofs/MetaRoundTrip.lean`, namespace `E57.MT`) the tree stated for every serialiser
+    in `E57/Model/MetaTree.lean` renders to exactly the text the writer model emits:
+    `renderLn (X.tree …) = X.xmlString …` for strings/floats/integers, date-time, pose, the three
+    bounds, limits, record types, records, `PointCloud.tree_xml`, blob references, the four image
+    representations, `Image.tree_xml`; whole file: `rootTree_xml_partial`, `document_text`
+    (partial only in that `cdataEscape` of the constant format name is an explicit closed hypothesis
+    `FormatNameUnescaped`: `String.replace` does not reduce in the kernel).
+ B. (proved) the readers invert the trees for ALL field values: `C04_document_roundtrip`
+    (root, every point cloud, every image, the extension list), `PointCloud.roundtrip(_partial)`,
+    `prototype_roundtrip`, `DataType.roundtrip`, `IntensityLimits/ColorLimits.roundtrip` (value kinds kept),
+    the bounds, `DateTime.roundtrip`, `Transform.roundtrip`, `Image.roundtrip` and the four
+    representations, `parseI64_toString` (every i64), `optString_of_find` (every string incl. empty and
+    whitespace-only).  Floats: under `F64OK/F32OK ft fp v` = "the external float printer and parser
+    invert each other on v" (Rust's `Display`/`FromStr`; checked per value by the suites;
+    `nan_payload_lost` shows what the hypothesis excludes).
+    Side conditions that are NECESSARY and discharged from the writer's own checks:
+    `ExtsOk` (prefixes distinct; URLs distinct, non-empty, not the E57 namespace —
+    `registerExtension_keeps_ExtsOk`: the fixed `register_extension` keeps it; `recordName_shared_url`,
+    `recordName_e57_url`, `extensions_statement_false`: without it the round trip is false),
+    `PrototypeOK_of_validate`, `RecordNameOK_of_validate`, `NoImagesShadow_of_validate`.
+    Known asymmetry kept visible: incomplete limits are not stored (`PointCloud.stored`,
+    `PointCloud.roundtrip_statement_false`).
+ C. (differential, on every run) XML text → tree is roxmltree's: for every generated program whose
+    last finalize is a plain `finalize()` the writer suite compares the tree roxmltree reports for the
+    REAL writer's XML (token dump) with `MT.docTokens (MT.rootDoc …)` of the model — field `T` of the
+    writer protocol.  (`parseTree (docTokens d) = some d` could only be tested, the driver's parser
+    is a `partial def`.)
+-/
+import E57.Model.MetaTree
+import E57.Proofs.MetaRoundTrip
